@@ -43,6 +43,11 @@ type op struct {
 	Ring  int    `json:"ring,omitempty"`  // ring size
 	Nin   int    `json:"nin,omitempty"`   // number of hidden inputs
 	Var   string `json:"var,omitempty"`   // hostile construction
+	// Price / AmtWrap: "word-wrap" variants of an account-signed transaction: the gas price (pinned to 1e11 by the
+	// constructors, free on the wire) resp. the amount moved by 2^32, 2^63, 2^64, 2*2^64 AFTER the gas limit was derived
+	// from the honest value, then properly signed: a big.Int validated through a machine-word view of it passes.
+	Price   string `json:"price,omitempty"`
+	AmtWrap string `json:"amtwrap,omitempty"`
 	// Struct: a STRUCTURAL variant of an otherwise honest confidential transaction, made by the owner of the keys
 	// (re-signed), whose commitments balance by construction: the chain may admit it or not, but if it does, every
 	// account input must be debited and every output credited (see structural variants in buildAin / buildSpend).
@@ -58,6 +63,8 @@ func (o op) String() string {
 	}
 	addf("var", o.Var)
 	addf("struct", o.Struct)
+	addf("price", o.Price)
+	addf("amtwrap", o.AmtWrap)
 	addf("from", o.From)
 	addf("w", o.W)
 	if o.Ring > 0 {
@@ -81,6 +88,18 @@ func (o op) String() string {
 
 // kindName: the root-cause-level name of an op (no amounts), used in violation keys.
 func (o op) kindName() string {
+	if o.Price != "" || o.AmtWrap != "" {
+		b := o
+		b.Price, b.AmtWrap = "", ""
+		n := b.kindName()
+		if o.Price != "" {
+			n += ":price-wrap"
+		}
+		if o.AmtWrap != "" {
+			n += ":amount-wrap"
+		}
+		return n
+	}
 	if o.Struct != "" {
 		b := o
 		b.Struct = ""
@@ -211,9 +230,9 @@ func whaleBalance() *big.Int {
 
 // wrapOffsets: amounts (in units) around which a scalar reduction or a truncation of a PUBLIC amount could make the
 // commitment equation hold although the integers differ: multiples of the group order l (x10/x20: still multiples of
-// the gas price, for fees), l itself and l-1 as absolute values, powers of two at the widths of the encodings, and
+// the gas price, for fees), l itself and l-1 as absolute values, powers of two at the widths of machine words and of the encodings, and
 // 2^256 mod l.
-var wrapOffsets = []string{"l", "2l", "10l", "20l", "=l", "=l-1", "2^64", "2^128", "2^252", "2^255", "2^256", "r256"}
+var wrapOffsets = []string{"l", "2l", "10l", "20l", "=l", "=l-1", "2^32", "2^63", "2^64", "2*2^64", "2^128", "2^252", "2^255", "2^256", "r256"}
 
 // wrapFee is wrapAmount for a fee: the offset is taken ten times, so that the result stays a multiple of the gas price
 // (10 units) and is not refused for that reason alone.
@@ -245,8 +264,14 @@ func wrapAmount(honest *big.Int, arg string) (*big.Int, error) {
 		return new(big.Int).Mul(curveL, unit), nil
 	case "=l-1":
 		return new(big.Int).Mul(sub(curveL, bi(1)), unit), nil
+	case "2^32":
+		off = pow(32)
+	case "2^63":
+		off = pow(63)
 	case "2^64":
 		off = pow(64)
+	case "2*2^64":
+		off = pow(65)
 	case "2^128":
 		off = pow(128)
 	case "2^252":
@@ -479,6 +504,44 @@ func gasAdjust(g uint64, how string) uint64 {
 	return g
 }
 
+// wordWraps: offsets at the machine-word widths.
+var wordWraps = []string{"+2^32", "+2^63", "+2^64", "+2*2^64"}
+
+func wordWrap(v *big.Int, class string) (*big.Int, error) {
+	switch class {
+	case "":
+		return v, nil
+	case "+2^32":
+		return add(v, new(big.Int).Lsh(bi(1), 32)), nil
+	case "+2^63":
+		return add(v, new(big.Int).Lsh(bi(1), 63)), nil
+	case "+2^64":
+		return add(v, new(big.Int).Lsh(bi(1), 64)), nil
+	case "+2*2^64":
+		return add(v, new(big.Int).Lsh(bi(1), 65)), nil
+	}
+	return nil, fmt.Errorf("unknown word-wrap class %q", class)
+}
+
+// repriced: tx (built and signed by the stock builders) with the gas price of class o.Price, signed again by from.
+func repriced(tx types.Tx, o op, from *txkit.Account) (types.Tx, error) {
+	if o.Price == "" {
+		return tx, nil
+	}
+	p, err := wordWrap(price, o.Price)
+	if err != nil {
+		return nil, err
+	}
+	raw := types.VerifC06WithGasPrice(tx, p)
+	switch t := raw.(type) {
+	case *types.Transaction:
+		return t, t.Sign(types.GlobalSTDSigner, from.Key)
+	case *types.TokenTransaction:
+		return t, t.Sign(types.GlobalSTDSigner, from.Key)
+	}
+	return nil, fmt.Errorf("repriced: kind without a gas price")
+}
+
 // vmGasClasses: the gas-limit boundaries of a value-carrying contract call / creation. ig = intrinsic gas of the
 // payload, tf = the value-transfer fee payTransferGas charges (CalNewAmountGas(value, EverContractLiankeFee) for a coin
 // value > 0 that goes to a contract or a creation, else 0). Admission (IllegalGasLimitOrGasPrice) compares the limit with
@@ -550,11 +613,18 @@ func (x *bctx) buildTransfer(o op) (*txMeta, error) {
 		return nil, disabled("%v", err)
 	}
 	n := x.peekNonce(from.Addr)
+	honest := amt
+	if amt, err = wordWrap(honest, o.AmtWrap); err != nil { // the gas limit below is the one of the honest amount
+		return nil, err
+	}
 	var tx types.Tx
 	if o.Kind == "xfer" {
-		tx = txkit.TransferWithGas(from, n, to, amt, gasAdjust(txkit.TransferGas(amt), o.Gas), nil)
+		tx = txkit.TransferWithGas(from, n, to, amt, gasAdjust(txkit.TransferGas(honest), o.Gas), nil)
 	} else {
-		tx = txkit.TokenTransferWithGas(from, n, tok, to, amt, gasAdjust(txkit.TokenTransferGas(tok, amt), o.Gas))
+		tx = txkit.TokenTransferWithGas(from, n, tok, to, amt, gasAdjust(txkit.TokenTransferGas(tok, honest), o.Gas))
+	}
+	if tx, err = repriced(tx, o, from); err != nil {
+		return nil, err
 	}
 	x.takeNonce(from.Addr)
 	return &txMeta{Op: o, Tx: tx, Class: "free", Payer: from.Addr, Token: tok, Value: amt,
@@ -600,7 +670,13 @@ func (x *bctx) buildCreate(o op) (*txMeta, error) {
 	if err != nil {
 		return nil, err
 	}
-	tx := txkit.CreateWithGas(from, n, init, val, gas)
+	if val, err = wordWrap(val, o.AmtWrap); err != nil {
+		return nil, err
+	}
+	var tx types.Tx = txkit.CreateWithGas(from, n, init, val, gas)
+	if tx, err = repriced(tx, o, from); err != nil {
+		return nil, err
+	}
 	x.takeNonce(from.Addr)
 	code := o.Code
 	return &txMeta{Op: o, Tx: tx, Class: "free", Payer: from.Addr, Token: coinTok, Value: val,
@@ -679,6 +755,9 @@ func (x *bctx) buildCall(o op) (*txMeta, error) {
 	if err != nil {
 		return nil, err
 	}
+	if val, err = wordWrap(val, o.AmtWrap); err != nil {
+		return nil, err
+	}
 	var tx types.Tx
 	if o.Kind == "call" {
 		tx = txkit.TransferWithGas(from, n, target, val, gas, data)
@@ -688,6 +767,9 @@ func (x *bctx) buildCall(o op) (*txMeta, error) {
 			return nil, err
 		}
 		tx = t
+	}
+	if tx, err = repriced(tx, o, from); err != nil {
+		return nil, err
 	}
 	x.takeNonce(from.Addr)
 	return &txMeta{Op: o, Tx: tx, Class: "free", Payer: from.Addr, Token: tok, Value: val,
